@@ -187,12 +187,18 @@ def _worker(task):
     R = C.Recorder()
     rng = random.Random(seed)
     rng.seed_value = seed
+    R.spell_rng = random.Random(seed ^ 0x5BE11)
+    R.spell_rate = 1.0 if group == "spell" else 0.2
     t0 = time.time()
     try:
         if group.startswith("exhaustive:"):
             Gr.exhaustive_field_edits(R, group.split(":", 1)[1])
         elif group.startswith("everykey:"):
             Gr.json_every_key(R, group.split(":", 1)[1])
+        elif group == "spell":
+            # every seeded group once more, small, with EVERY call repeated in every spelling
+            for g in ("text", "binfunc", "binary", "pred", "generic", "json"):
+                Gr.GROUPS[g](R, rng, n)
         else:
             Gr.GROUPS[group](R, rng, n)
     except common.HarnessError as e:
@@ -223,9 +229,14 @@ def _merge(ctx, res):
         if nt:
             ctx.nontrivial.add(d)
     ctx.evaluations += res["calls"]
+    seen = ctx.__dict__.setdefault("_c19_per_key", {})
     for f in res["failures"]:
         ctx.streams[f["stream"] + "#oracle"]["failures"] += 1
-        ctx.fail("property", f["stream"], f["detail"], key=f["key"], oracle={"oracle": "call", "witness": f["witness"]})
+        # Ctx.fail keeps 20 findings per stream: every KEY must survive, so keys are their own stream label
+        seen[f["key"]] = seen.get(f["key"], 0) + 1
+        if seen[f["key"]] <= 2:
+            ctx.fail("property", f["stream"] + "/" + f["key"], f["detail"], key=f["key"],
+                     oracle={"oracle": "call", "witness": f["witness"]})
 
 
 # ----------------------------------------------------------------------------- correspondence streams
@@ -326,6 +337,7 @@ def run(ctx):
         tasks.append(("deep", (ctx.rng.getrandbits(60) << 2) | part, ctx.n(700, 4000)))
     for part in range(2):
         tasks.append(("psbtdegenerate", (ctx.rng.getrandbits(60) << 1) | part, 10**6))
+        tasks.append(("spell", ctx.rng.getrandbits(62), ctx.n(700, 8000)))
         tasks.append(("msdecode", (ctx.rng.getrandbits(60) << 1) | part, ctx.n(9000, 10**7)))
     if ctx.tier == "thorough":
         for name in sorted(S.CLASS_BIN):
